@@ -40,6 +40,12 @@ def compile_java(tree, prefix='out/java/'):
             p = work / 'src' / target[len(prefix):]
             p.write_text('package %s;\npublic class %s extends %s%s { public %s(%s) { super(%s); } }\n' % (pkg, name, name, suffix, name, ', '.join(params), args))
             files.append(str(p))
+    if any('pdvann.' in t for r_, t in tree.items() if r_.startswith(prefix)):
+        for nm in ('NotNull', 'Nullable'):
+            p = work / 'src' / 'pdvann' / (nm + '.java')
+            p.parent.mkdir(parents=True, exist_ok=True)
+            p.write_text('package pdvann;\nimport java.lang.annotation.*;\n@Target({ElementType.TYPE_USE, ElementType.TYPE_PARAMETER})\npublic @interface %s {}\n' % nm)
+            files.append(str(p))
     (work / 'cls').mkdir()
     if not files:
         return True, '', work
